@@ -607,15 +607,19 @@ func c5setTerm(set map[string]bool) (string, []string) {
 	return "[" + strings.Join(hs, "; ") + "]", names
 }
 
-// chainTerm describes the configured chain and the statement for the model: exact-query and pattern
-// results are computed with the REAL matchers (inputs of the model); the TABLE rule is NOT an input: the
-// term carries every handler's table list and the FROM tree / INSERT target of the parsed statement and the
-// model evaluates the rule itself (OpCensor).  Every table-rule evaluation the chain can make is also
-// returned so that it is replayed (OpTables) and judged on its own.
+// chainTerm describes the configured chain and the statement for the model: the exact-query result is computed
+// with the REAL matcher (input of the model); the TABLE rule is NOT an input: the term carries every handler's
+// table list and the FROM tree / INSERT target of the parsed statement and the model evaluates the rule itself
+// (OpCensor).  When a handler of the chain has patterns the PATTERN rule is not an input either: the term then
+// carries the tree forms (c05pat_tree.go) of the handlers' parsed patterns and of the parsed statement and the
+// model evaluates common.CheckPatternsMatching itself (OpCensorP, Model/CensorPattern.v); without patterns the
+// shorter OpCensor form is kept.  Every table-rule evaluation the chain can make is also returned so that it is
+// replayed (OpTables) and judged on its own.
 func chainTerm(c *acracensor.AcraCensor, raw string) (string, bool, sqlparser.Statement, []c5teval) {
 	norm, _, parsed, err := c5parser.HandleRawSQLQuery(raw)
 	isParsed := err == nil
-	var hs []string
+	var hs, hsP []string
+	anyPatterns := false
 	var evals []c5teval
 	for _, h := range c.VerifHandlers() {
 		switch x := h.(type) {
@@ -641,22 +645,40 @@ func chainTerm(c *acracensor.AcraCensor, raw string) (string, bool, sqlparser.St
 				}
 			}
 			hs = append(hs, fmt.Sprintf("%s %s %s %s %s %s", name, cb(len(q) != 0), cb(mq), setTerm, cb(len(p) != 0), cb(mp)))
+			var pts []string
+			for _, pat := range p {
+				pts = append(pts, c5pTree(pat).H())
+				anyPatterns = true
+			}
+			hsP = append(hsP, fmt.Sprintf("P%s %s %s %s [%s]", name[1:], cb(len(q) != 0), cb(mq), setTerm, strings.Join(pts, "; ")))
 		case *handlers.AllowAllHandler:
 			hs = append(hs, "SAA")
+			hsP = append(hsP, "PAA")
 		case *handlers.DenyAllHandler:
 			hs = append(hs, "SDA")
+			hsP = append(hsP, "PDA")
 		case *handlers.QueryIgnoreHandler:
 			ig := x.VerifQueries()
 			hs = append(hs, "SI "+cb(ig[sqlparser.String(parsed)] || ig[raw]))
+			hsP = append(hsP, "PI "+cb(ig[sqlparser.String(parsed)] || ig[raw]))
 		case *handlers.QueryCaptureHandler:
 			hs = append(hs, "SC")
+			hsP = append(hsP, "PC")
 		default:
 			hs = append(hs, "SC")
+			hsP = append(hsP, "PC")
 		}
 	}
 	st := "STOther"
 	if isParsed {
 		st = stmtTablesTerm(parsed)
+	}
+	if anyPatterns {
+		stTree := "(hbs [])"
+		if isParsed {
+			stTree = c5pTree(parsed).H()
+		}
+		return fmt.Sprintf("(OpCensorP %s %s %s %s %s [%s])", cb(c.VerifIgnoreParseError()), cb(c.VerifHasUnparsedWriter()), cb(isParsed), st, stTree, strings.Join(hsP, "; ")), isParsed, parsed, evals
 	}
 	return fmt.Sprintf("(OpCensor %s %s %s %s [%s])", cb(c.VerifIgnoreParseError()), cb(c.VerifHasUnparsedWriter()), cb(isParsed), st, strings.Join(hs, "; ")), isParsed, parsed, evals
 }
